@@ -28,7 +28,29 @@ const KINDS: [ErrorKind; 5] = [
     ErrorKind::WouldBlock,
 ];
 
+/// A path whose reads fail (`/proc/self/mem` reports size 0 and fails with EIO at offset 0): `from_path` has to
+/// surface that error. Skipped where the environment does not behave like that.
+fn failing_path(ctx: &mut Ctx) {
+    use std::io::Read;
+    let path = "/proc/self/mem";
+    let fails = std::fs::File::open(path).map(|mut f| f.read(&mut [0u8; 16]).is_err()).unwrap_or(false);
+    if !fails {
+        ctx.count("failing_path_unavailable");
+        return;
+    }
+    ctx.case(9 << 56, path.as_bytes(), |ctx| {
+        ctx.count("failing_path_decodes");
+        if rosu_map::from_path::<Beatmap>(path).is_ok() || Beatmap::from_path(path).is_ok() || rosu_map::from_path::<Trace>(path).is_ok() {
+            ctx.violation("read_fault_swallowed", format!("reading {path} fails with an I/O error, yet from_path returned Ok"), 9 << 56, path.as_bytes());
+        }
+    });
+    ctx.eval(fnv64(path.as_bytes()), true);
+}
+
 pub fn run(ctx: &mut Ctx) {
+    if ctx.shard == 0 && ctx.literal.is_none() {
+        failing_path(ctx);
+    }
     let corpus = Corpus::load(&ctx.repo);
     if corpus.files.is_empty() {
         ctx.inconclusive(format!("no bundled maps found under {}/resources", ctx.repo));
